@@ -24,9 +24,9 @@ EXPLANATION = (
     "catch-all that logs and continues; exceptions converted to another class are encryption-only (C08-OVER). (FOLDER) in "
     "the 7z reader the arguments that position the read of each folder depend on the folder being decoded. (DISPATCH) the "
     "archive types the magic-byte detector can return are exactly the ones read_archive handles, and the tar mode derived "
-    "from each is one tarfile understands."
+    "from each is one tarfile understands. (STEP) in the per-member step every normal path reaches the routed extractor; the only early exit is the MAX_ARCHIVE_FILE_SIZE test on the member's bytes. (ENDIAN) every integer conversion of the 7z reader is little-endian, as 7zFormat.txt specifies. (FOLDER, continued) a sub-stream size and a folder slot are taken exactly by entries whose kEmptyStream bit is clear (propositional check over the atoms of the directory flag)."
 )
-NOT_DECIDED = ["identity of member content with direct extraction (bytes, decompression correctness of LZMA/LZMA2/deflate)", "7z header parsing arithmetic (pack sizes, substream sizes, file-to-folder map) as values"]
+NOT_DECIDED = ["identity of member content with direct extraction (bytes, decompression correctness of LZMA/LZMA2/deflate)", "7z header parsing arithmetic (pack sizes, substream sizes, file-to-folder map) as values", "zero-length files inside a 7z (kEmptyFile is not evaluated: such a member is listed as a directory and yields no result, unlike the same member in a ZIP or TAR)"]
 TRUSTED = ["zipfile.infolist / tarfile.getmembers return members in archive order", "CFG / lexical path conditions"]
 FLOORS = {"C10-EXACT": 8, "C10-CODEC": 6, "C10-LABEL": 10, "C10-STEP": 2, "C10-ENDIAN": 4, "C10-ORDER": 4, "C10-SIB": 6, "C10-FOLDER": 3, "C10-DISPATCH": 6}
 
